@@ -1159,6 +1159,6 @@ def replay(record):
 
 MANIFEST = {
     "technique": "TLA+ reference model of AtomArray/AtomArrayStack (specs/C01) model-checked by TLC; every transition of the state graph replayed into real objects (projection + public == against a from-scratch reference object); recorded random histories validated by TLC",
-    "level_text": "The specification is the property's list-of-atoms reference model: atoms with identity, per-model coordinate cells, per-model boxes, a positional bond mapping and optional annotations whose per-atom value is a scalar or itself an array (annotation arrays with more than one dimension), with one operator per public operation (1-D and 2-D indexing with every index kind incl. negatives and Ellipsis, every index and every integer position of deletion / assignment in every FORM numpy accepts - Python int, numpy integer scalars int8..uint64, zero-dimensional integer array, list or integer ndarray of every dtype, bool ndarray or list of bools, slices with numpy bounds - in every tuple position, concatenation in both orders with operands lacking bonds/box/annotations, stack(), repeat(), from_template(), atom and model deletion, element and model assignment, annotation / bonds / box edits, copy and in-place mutation of copies). TLC explores every call on 78 constructed objects (<= 3 atoms, <= 2 models, with and without bonds / box / optional annotations) exhaustively and checks Coherent, RefusalIsNoOp and BondsFollowAtoms; all transitions are executed against the real classes, comparing the full projection, the outcome class, returned atoms, and the public == against an object rebuilt from the expected state with array()/stack(); longer histories on bigger objects are recorded and re-computed by TLC.",
+    "level_text": "The specification is the property's list-of-atoms reference model: atoms with identity, per-model coordinate cells, per-model boxes, a positional bond mapping and optional annotations whose per-atom value is a scalar or itself an array (annotation arrays with more than one dimension), with one operator per public operation (1-D and 2-D indexing with every index kind incl. negatives and Ellipsis, every index and every integer position of deletion / assignment in every FORM numpy accepts - Python int, numpy integer scalars int8..uint64, zero-dimensional integer array, list or integer ndarray of every dtype, bool ndarray or list of bools, slices with numpy bounds - in every tuple position, concatenation in both orders with operands lacking bonds/box/annotations, stack(), repeat(), from_template(), atom and model deletion, element and model assignment, annotation / bonds / box edits, copy and in-place mutation of copies). TLC explores every call on 78 constructed objects (<= 3 atoms, <= 2 models, with and without bonds / box / optional annotations) exhaustively and checks Coherent, RefusalIsNoOp and BondsFollowAtoms; all transitions are executed against the real classes, comparing the full projection, the outcome class, returned atoms, and the public == against an object rebuilt from the expected state with array()/stack(); longer histories on bigger objects are recorded and re-computed by TLC. A composite call derived_edit derives an object holding all atoms (slice, first model, one repetition, stack of one), assigns every annotation of the derived object as a whole and - for the slice - edits its bond list: the object at hand must not move (outcome source_unchanged); repeat() is taken with 0, 1 and 2 repetitions.",
     "level_note": "Bounded exhaustive part: construction + 1 call (quick: core index forms; thorough: all forms) / + 2 calls (thorough, default forms), <= 4 atoms, <= 2 models. Annotation dtypes covered: int, float, bool, str, each also as array-valued per-atom values ((n,3) float32, (n,2,2) int, (n,2) str) on arrays and stacks (22 further constructed objects; default index forms). View aliasing is not modelled. Trusted: TLC, TLA+ value parser, numpy, the projection function.",
 }
